@@ -52,6 +52,10 @@ def gen_cases(tier, seed):
             dim = 2 + (i % 2)
             cm = W.gen_copula_model_spec(rng, dim=dim)
             cases.append({"model": cm, "grid": G.gen_grid_spec(rng, ctor, dim), "refine": int(rng.integers(0, (2 if not thorough else 4) + 1))})
+    # hand-built grids, one array per axis with its own bounds (the base constructor)
+    for i in range(4 if not thorough else 24):
+        dim = 2 + (i % 2)
+        cases.append({"model": W.gen_copula_model_spec(rng, dim=dim), "grid": G.gen_grid_spec(rng, "per_axis", dim), "refine": int(rng.integers(0, 4))})
     # credit grids whose thresholds sit exactly on the left truncation / on -h (refused, or returned well-formed)
     for i in range(4 if not thorough else 24):
         dim = 1 + (i % 3)
@@ -215,16 +219,23 @@ def run_case(case, R, ctx):
     sizes0 = [len(a) for a in grid.axes]
     holder = grid.origin_coordinate           # an alias taken before the refinements (as samplers do)
     o0 = list(holder) if g["dim"] > 1 else [holder.value]
+    refine_calls = 0
+    evals0 = contracts.LOG["refine_evals"]
     for _ in range(nref):
         if max(len(a) for a in grid.axes) > 4000:
             break
         try:
+            refine_calls += 1
             grid.refine()
         except Exception as exc:  # noqa: BLE001
             R.violation(f"{g['ctor']}-refine-raises", f"{label}: {g['ctor']} grid.refine() raises {type(exc).__name__}: {exc}",
                         {"model": mspec, "grid": g})
             break
         R.klass("refinements")
+    if contracts.LOG["refine_evals"] - evals0 < refine_calls and not contracts.LOG["violations"]:
+        # a refine() the post-condition never saw decides nothing
+        R.error("monitor not reached", f"{label}: {refine_calls} refine() call(s) on a {type(grid).__name__}, {contracts.LOG['refine_evals'] - evals0} "
+                "post-condition evaluation(s)")
     contracts.drain(R, prefix=f"{g['ctor']}-")
     R.nontrivial_case(label, g["ctor"], g["dim"], {k: v for k, v in g.items() if not k.startswith("_")}, nref)
     R.sample({"model": label, "grid": {k: v for k, v in g.items()}, "refinements": nref, "sizes_level0": sizes0,
